@@ -52,13 +52,14 @@ import (
 
 type c14Input struct {
 	Workers int     `json:"workers"`
-	Jobs    []int   `json:"jobs"`    // jobs per RunJobs caller (len = number of callers)
-	K       int     `json:"k"`       // scheduler yields of the stopper before it acts
-	Mode    string  `json:"mode"`    // none | stop | cancel | both | stop-before | cancel-before | stop-after | cancel-after
-	JobKind string  `json:"jobKind"` // plain | yield | block | mixed | hold (non-panicking jobs)
-	PanicAt [][]int `json:"panicAt"` // per caller: indices of the jobs whose job function panics
-	Stagger []int   `json:"stagger"` // yields of caller i before it calls RunJobs
-	Salt    uint64  `json:"salt"`    // per-job choices for mixed/yield kinds
+	Jobs    []int   `json:"jobs"`            // jobs per RunJobs caller (len = number of callers)
+	K       int     `json:"k"`               // scheduler yields of the stopper before it acts
+	Mode    string  `json:"mode"`            // none | stop | cancel | both | stop-before | cancel-before | stop-after | cancel-after
+	JobKind string  `json:"jobKind"`         // plain | yield | block | mixed | hold (non-panicking jobs)
+	PanicAt [][]int `json:"panicAt"`         // per caller: indices of the jobs whose job function panics
+	Stagger []int   `json:"stagger"`         // yields of caller i before it calls RunJobs
+	Salt    uint64  `json:"salt"`            // per-job choices for mixed/yield kinds
+	Trace   bool    `json:"trace,omitempty"` // record the verif hook events of the run (needs the hooks in /repo: c14_trace_test.go)
 }
 
 type c14Caller struct {
@@ -81,7 +82,40 @@ type c14Impl struct {
 	Phase      string      `json:"phase"`      // "verdict" (written before release) | "final"
 	Crashed    bool        `json:"crashed"`    // the child process died while running this case
 	Panic      string      `json:"panic,omitempty"`
+	Events     []c14Ev     `json:"events,omitempty"` // the hook calls of the run, in log order (trace cases only)
 }
+
+// c14Ev is one call of an instrumentation hook: the point and up to two numbers (caller index,
+// worker execution, count, worker number); JSON form ["point",a,b,c].
+type c14Ev struct {
+	P       string
+	A, B, C int
+}
+
+func (e c14Ev) MarshalJSON() ([]byte, error) { return json.Marshal([]any{e.P, e.A, e.B, e.C}) }
+func (e *c14Ev) UnmarshalJSON(b []byte) error {
+	var raw []json.RawMessage
+	if err := json.Unmarshal(b, &raw); err != nil || len(raw) != 4 {
+		return fmt.Errorf("bad event %s", b)
+	}
+	if err := json.Unmarshal(raw[3], &e.C); err != nil {
+		return err
+	}
+	if err := json.Unmarshal(raw[0], &e.P); err != nil {
+		return err
+	}
+	if err := json.Unmarshal(raw[1], &e.A); err != nil {
+		return err
+	}
+	return json.Unmarshal(raw[2], &e.B)
+}
+
+// c14TraceBegin is set by c14_trace_test.go, which exists only when /repo carries the verif hooks
+// (util.SetVerifHook).  It starts recording and returns a function to log the harness's own
+// actions (ctx cancellation) and one that stops recording and returns the log.
+var c14TraceBegin func(in c14Input) (env func(point string, a int), end func() []c14Ev)
+
+type c14CallerKey struct{}
 
 // c14Blocking: what a job function does before it returns (or panics): yield `yields` times, then
 // either return, or wait for its ctx (`block`), or wait until the harness releases it (`hold`:
@@ -235,15 +269,22 @@ func c14Run(t *testing.T, in c14Input, verdict func(c14Impl)) (impl c14Impl) {
 	}()
 	synctest.Test(t, func(t *testing.T) {
 		base := c14BubbleGoroutines()
+		tenv := func(string, int) {}
+		var tend func() []c14Ev
+		if in.Trace && c14TraceBegin != nil {
+			tenv, tend = c14TraceBegin(in)
+		}
 		grp := util.NewWorkerGroup[int](in.Workers, 10)
 		ctxs := make([]context.Context, n)
 		cancels := make([]context.CancelFunc, n)
 		for i := range ctxs {
-			ctxs[i], cancels[i] = context.WithCancel(context.Background())
+			ctxs[i], cancels[i] = context.WithCancel(context.WithValue(context.Background(), c14CallerKey{}, i))
 		}
 		cancelAll := func() {
-			for _, c := range cancels {
+			for i, c := range cancels {
+				tenv("env.cancel-pre", i)
 				c()
+				tenv("env.cancel", i)
 			}
 		}
 		inject := func(mode string) {
@@ -390,6 +431,9 @@ func c14Run(t *testing.T, in c14Input, verdict func(c14Impl)) (impl c14Impl) {
 			impl.Callers[i].Returned = v.Callers[i].Returned
 		}
 		impl.Leaked = c14BubbleGoroutines() - base
+		if tend != nil {
+			impl.Events = tend()
+		}
 	})
 	return impl
 }
@@ -534,6 +578,33 @@ func c14Gen(r *Rng, i int) c14Input {
 	return in
 }
 
+// c14GenTrace: a case for trace validation: the same generator, sizes cut down
+func c14GenTrace(r *Rng, i int) c14Input {
+	in := c14Gen(r, i)
+	in.Trace = true
+	if in.Workers > 16 {
+		in.Workers = []int{1, 2, 3, 4, 5, 8, 16}[r.Intn(7)]
+	}
+	for c := range in.Jobs {
+		if in.Jobs[c] > 25 {
+			in.Jobs[c] = r.Range(0, 25)
+		}
+	}
+	for c := range in.PanicAt {
+		var at []int
+		for _, p := range in.PanicAt[c] {
+			if c < len(in.Jobs) && p < in.Jobs[c] {
+				at = append(at, p)
+			}
+		}
+		in.PanicAt[c] = at
+	}
+	if in.K > 300 {
+		in.K = r.Range(0, 300)
+	}
+	return in
+}
+
 type c14Case struct {
 	src string
 	in  c14Input
@@ -565,11 +636,23 @@ func c14Cases(t *testing.T) (cases []c14Case, dist map[string]int) {
 		in := c14Gen(r, i)
 		cases = append(cases, c14Case{"gen", in})
 	}
+	if c14TraceBegin != nil {
+		// trace validation subset: smaller runs (a trace has ~30 events per job), own random stream so
+		// that the cases above are the same with and without the hooks
+		r2 := NewRng(seed() + 0x7ace)
+		nt := tierN(500, 6000)
+		for i := 0; i < nt; i++ {
+			cases = append(cases, c14Case{"gen-trace", c14GenTrace(r2, i)})
+		}
+	}
 	for _, c := range cases {
 		in := c.in
 		tot := 0
 		for _, j := range in.Jobs {
 			tot += j
+		}
+		if in.Trace {
+			dist["trace=yes"]++
 		}
 		dist["mode="+in.Mode]++
 		dist["kind="+in.JobKind]++
